@@ -366,8 +366,16 @@ def c09_a(ctx: Ctx):
             if not isinstance(n, ast.Call):
                 continue
             tq = common.targets_of(ctx, f, n)
+            v = None
             if WSREAD in tq or GETSP in tq:
                 v = arg_or_kw(n, 1, "validate")
+            elif isinstance(n.func, (ast.Name, ast.Attribute)) and (dotted(n.func) or "").split(".")[-1] == "partial" and n.args \
+                    and isinstance(n.args[0], ast.Attribute) and n.args[0].attr in (WSREAD.rsplit(".", 1)[-1], GETSP.rsplit(".", 1)[-1]):
+                # functools.partial(self._get_statepoint_from_workspace, validate=...): the flag is fixed for every later call through the partial object
+                v = kwarg(n, "validate") or (n.args[2] if len(n.args) > 2 else None)
+            else:
+                continue
+            if True:
                 if v is None:
                     continue
                 fv = ctx.fold(v, f)
